@@ -1011,532 +1011,538 @@ def run(repo, chk):
     chk.fn(so)
 
     # ---------------------------------------------------------------- roles
-    # the results object is what run_sim returns
-    rnames = {unparse(g.node_ast(r).value) for r in g.nodes_where(lambda node, d: isinstance(node, ast.Return)) if g.node_ast(r).value is not None}
-    if len(rnames) != 1 or not re.match(r"^\w+$", next(iter(rnames))):
-        raise AnchorError("run_sim: expected one returned results variable, found %s" % sorted(rnames))
-    res = next(iter(rnames))
+    with chk.part("roles"):
+        # the results object is what run_sim returns
+        rnames = {unparse(g.node_ast(r).value) for r in g.nodes_where(lambda node, d: isinstance(node, ast.Return)) if g.node_ast(r).value is not None}
+        if len(rnames) != 1 or not re.match(r"^\w+$", next(iter(rnames))):
+            raise AnchorError("run_sim: expected one returned results variable, found %s" % sorted(rnames))
+        res = next(iter(rnames))
 
-    # attributes _setup_sim_options fills from options.time.* and from its convergence_error parameter
-    fso = Flow(so)
+        # attributes _setup_sim_options fills from options.time.* and from its convergence_error parameter
+        fso = Flow(so)
 
-    def setup_attr(pred, what):
-        out = set()
-        for i in sorted(fso.G.nodes):
-            a = fso.g.node_ast(i)
-            if isinstance(a, ast.Assign) and len(a.targets) == 1 and dotted(a.targets[0]) and dotted(a.targets[0]).startswith("self.") and pred(fso.resolve(a.value, i)):
-                out.add(dotted(a.targets[0]))
-        if not out:
-            raise AnchorError("_setup_sim_options: attribute holding %s not found" % what)
-        return out
-    hyd_attrs = setup_attr(lambda v: (dotted(v) or "").endswith("options.time.hydraulic_timestep"), "options.time.hydraulic_timestep")
-    rep_attrs = setup_attr(lambda v: (dotted(v) or "").endswith("options.time.report_timestep"), "options.time.report_timestep")
-    conv_roles = {"convergence_error"} | setup_attr(lambda v: isinstance(v, ast.Name) and v.id == "convergence_error", "the convergence_error argument")
-    if "convergence_error" not in fl.params:
-        raise AnchorError("run_sim: parameter convergence_error vanished")
+        def setup_attr(pred, what):
+            out = set()
+            for i in sorted(fso.G.nodes):
+                a = fso.g.node_ast(i)
+                if isinstance(a, ast.Assign) and len(a.targets) == 1 and dotted(a.targets[0]) and dotted(a.targets[0]).startswith("self.") and pred(fso.resolve(a.value, i)):
+                    out.add(dotted(a.targets[0]))
+            if not out:
+                raise AnchorError("_setup_sim_options: attribute holding %s not found" % what)
+            return out
+        hyd_attrs = setup_attr(lambda v: (dotted(v) or "").endswith("options.time.hydraulic_timestep"), "options.time.hydraulic_timestep")
+        rep_attrs = setup_attr(lambda v: (dotted(v) or "").endswith("options.time.report_timestep"), "options.time.report_timestep")
+        conv_roles = {"convergence_error"} | setup_attr(lambda v: isinstance(v, ast.Name) and v.id == "convergence_error", "the convergence_error argument")
+        if "convergence_error" not in fl.params:
+            raise AnchorError("run_sim: parameter convergence_error vanished")
 
-    solves = fl.calling("_solver_helper")
-    stores = fl.calling("store_results_in_network")
-    saves = fl.calling("save_results")
-    appends = []
-    for i in sorted(fl.G.nodes):
-        if isinstance(g.node_ast(i), ast.Expr) and any(fl.call_target(c, i) == res + ".time.append" for c in fl.own_calls(i)):
-            appends.append(i)
-    if not (solves and stores and saves and appends):
-        raise AnchorError("run_sim: anchors missing (solves=%s stores=%s saves=%s appends=%s)" % (solves, stores, saves, appends))
+        solves = fl.calling("_solver_helper")
+        stores = fl.calling("store_results_in_network")
+        saves = fl.calling("save_results")
+        appends = []
+        for i in sorted(fl.G.nodes):
+            if isinstance(g.node_ast(i), ast.Expr) and any(fl.call_target(c, i) == res + ".time.append" for c in fl.own_calls(i)):
+                appends.append(i)
+        if not (solves and stores and saves and appends):
+            raise AnchorError("run_sim: anchors missing (solves=%s stores=%s saves=%s appends=%s)" % (solves, stores, saves, appends))
 
-    # a value has role k of the solver triple if every origin is element k of a _solver_helper(...) call
-    def triple_role(expr, at):
-        ks, nodes = set(), set()
-        for lf in fl.origins(expr, at):
-            if lf.kind == "unbound":
-                continue        # e.g. the status assigned in a loop over solver attempts: an empty attempt list gives a NameError, not a status
-            a = lf.ast if lf.kind == "expr" else None
-            if isinstance(a, ast.Subscript) and isinstance(a.value, ast.Call) and (call_name(a.value) or "").split(".")[-1] == "_solver_helper" and isinstance(const(a.slice), int):
-                ks.add(const(a.slice))
-                nodes.add(lf.node)
-            else:
-                return None, set()
-        return (ks.pop(), nodes) if len(ks) == 1 else (None, set())
+        # a value has role k of the solver triple if every origin is element k of a _solver_helper(...) call
+        def triple_role(expr, at):
+            ks, nodes = set(), set()
+            for lf in fl.origins(expr, at):
+                if lf.kind == "unbound":
+                    continue        # e.g. the status assigned in a loop over solver attempts: an empty attempt list gives a NameError, not a status
+                a = lf.ast if lf.kind == "expr" else None
+                if isinstance(a, ast.Subscript) and isinstance(a.value, ast.Call) and (call_name(a.value) or "").split(".")[-1] == "_solver_helper" and isinstance(const(a.slice), int):
+                    ks.add(const(a.slice))
+                    nodes.add(lf.node)
+                else:
+                    return None, set()
+            return (ks.pop(), nodes) if len(ks) == 1 else (None, set())
 
-    def role_names(test, at, k):
-        """names in the (resolved) test that hold element k of the solver triple -> {name: solve nodes}"""
-        out = {}
-        for n in ast.walk(test):
-            if isinstance(n, ast.Name) and isinstance(n.ctx, ast.Load) and n.id in fl.locals:
-                kk, nodes = triple_role(n, at)
-                if kk == k:
-                    out[n.id] = nodes
-        return out
+        def role_names(test, at, k):
+            """names in the (resolved) test that hold element k of the solver triple -> {name: solve nodes}"""
+            out = {}
+            for n in ast.walk(test):
+                if isinstance(n, ast.Name) and isinstance(n.ctx, ast.Load) and n.id in fl.locals:
+                    kk, nodes = triple_role(n, at)
+                    if kk == k:
+                        out[n.id] = nodes
+            return out
 
-    sstat = enum_values(repo, SOLV, "SolverStatus")
-    rstat = enum_values(repo, RES, "ResultsStatus")
-    chk.expect(sstat.get("error") == 0 and sstat.get("converged") == 1, "R-C16-2", "SolverStatus.error == 0 (the value run_sim tests)", loc(SOLV, repo.cls(SOLV, "SolverStatus")), found=sstat)
+        sstat = enum_values(repo, SOLV, "SolverStatus")
+        rstat = enum_values(repo, RES, "ResultsStatus")
+        chk.expect(sstat.get("error") == 0 and sstat.get("converged") == 1, "R-C16-2", "SolverStatus.error == 0 (the value run_sim tests)", loc(SOLV, repo.cls(SOLV, "SolverStatus")), found=sstat)
 
-    def enum_const(d):
-        p = d.split(".")
-        if len(p) >= 2 and p[-2] == "SolverStatus" and p[-1] in sstat:
-            return sstat[p[-1]]
-        if len(p) >= 2 and p[-2] == "ResultsStatus" and p[-1] in rstat:
-            return rstat[p[-1]]
-        raise Unknown(d)
+        def enum_const(d):
+            p = d.split(".")
+            if len(p) >= 2 and p[-2] == "SolverStatus" and p[-1] in sstat:
+                return sstat[p[-1]]
+            if len(p) >= 2 and p[-2] == "ResultsStatus" and p[-1] in rstat:
+                return rstat[p[-1]]
+            raise Unknown(d)
 
-    # failure tests: decided by the status of the last solve alone, true for error (0) and false for converged (1) on one edge
-    ftests = {}     # test node -> (outcome on which the solve has failed, solve nodes whose status is tested)
-    fnames = {}     # test node -> the status variables it reads
-    for t in fl.tests():
-        rt = fl.rtest(t)
-        sn = role_names(rt, t, 0)
-        if not sn:
-            continue
-        o = decided_by(rt, set(sn), sstat.get("converged", 1), sstat.get("error", 0), other=enum_const)
-        if o is not None:
-            ftests[t] = (o, set().union(*sn.values()))
-            fnames[t] = set(sn)
+        # failure tests: decided by the status of the last solve alone, true for error (0) and false for converged (1) on one edge
+        ftests = {}     # test node -> (outcome on which the solve has failed, solve nodes whose status is tested)
+        fnames = {}     # test node -> the status variables it reads
+        for t in fl.tests():
+            rt = fl.rtest(t)
+            sn = role_names(rt, t, 0)
+            if not sn:
+                continue
+            o = decided_by(rt, set(sn), sstat.get("converged", 1), sstat.get("error", 0), other=enum_const)
+            if o is not None:
+                ftests[t] = (o, set().union(*sn.values()))
+                fnames[t] = set(sn)
 
-    # trial counter: a local incremented by a positive constant inside the loop; trial test: decided by the counter against anything else
-    def is_incr(node):
-        if isinstance(node, ast.AugAssign) and isinstance(node.target, ast.Name) and isinstance(node.op, ast.Add):
-            return isinstance(const(node.value), int) and const(node.value) > 0
-        if isinstance(node, ast.Assign) and len(node.targets) == 1 and isinstance(node.targets[0], ast.Name) and isinstance(node.value, ast.BinOp) and isinstance(node.value.op, ast.Add):
-            l, r = node.value.left, node.value.right
-            nm = node.targets[0].id
-            return (isinstance(l, ast.Name) and l.id == nm and isinstance(const(r), int) and const(r) > 0) or (isinstance(r, ast.Name) and r.id == nm and isinstance(const(l), int) and const(l) > 0)
-        return False
-    inloop = g.reachable(head)
-    tinc = [n for n in g.nodes_where(lambda node, d: is_incr(node)) if n in inloop and head in g.reachable(n)]
-    counters = {(_target_names(g.node_ast(n).targets[0]) if isinstance(g.node_ast(n), ast.Assign) else [g.node_ast(n).target.id])[0] for n in tinc}
-    trial_tests = {}
-    for t in fl.tests():
-        if t in ftests or t not in inloop:
-            continue
-        o = decided_by(fl.rtest(t), counters, -10 ** 9, 10 ** 9, other=lambda d: 7) if counters else None
-        if o is not None:
-            trial_tests[t] = (o, set())
+        # trial counter: a local incremented by a positive constant inside the loop; trial test: decided by the counter against anything else
+        def is_incr(node):
+            if isinstance(node, ast.AugAssign) and isinstance(node.target, ast.Name) and isinstance(node.op, ast.Add):
+                return isinstance(const(node.value), int) and const(node.value) > 0
+            if isinstance(node, ast.Assign) and len(node.targets) == 1 and isinstance(node.targets[0], ast.Name) and isinstance(node.value, ast.BinOp) and isinstance(node.value.op, ast.Add):
+                l, r = node.value.left, node.value.right
+                nm = node.targets[0].id
+                return (isinstance(l, ast.Name) and l.id == nm and isinstance(const(r), int) and const(r) > 0) or (isinstance(r, ast.Name) and r.id == nm and isinstance(const(l), int) and const(l) > 0)
+            return False
+        inloop = g.reachable(head)
+        tinc = [n for n in g.nodes_where(lambda node, d: is_incr(node)) if n in inloop and head in g.reachable(n)]
+        counters = {(_target_names(g.node_ast(n).targets[0]) if isinstance(g.node_ast(n), ast.Assign) else [g.node_ast(n).target.id])[0] for n in tinc}
+        trial_tests = {}
+        for t in fl.tests():
+            if t in ftests or t not in inloop:
+                continue
+            o = decided_by(fl.rtest(t), counters, -10 ** 9, 10 ** 9, other=lambda d: 7) if counters else None
+            if o is not None:
+                trial_tests[t] = (o, set())
 
-    # tests decided by convergence_error
-    conv = {}
-    for t in fl.tests():
-        o = decided_by(fl.rtest(t), conv_roles, False, True)
-        if o is not None:
-            conv[t] = o
-    conv_edges = [(t, o) for t, o in conv.items()]
+        # tests decided by convergence_error
+        conv = {}
+        for t in fl.tests():
+            o = decided_by(fl.rtest(t), conv_roles, False, True)
+            if o is not None:
+                conv[t] = o
+        conv_edges = [(t, o) for t, o in conv.items()]
 
     # ---------------------------------------------------------------- R-C16-1 failure exits
-    for s in solves:
-        via = [t for t, (o, nodes) in ftests.items() if s in nodes]
-        w = g.can_reach_avoiding(s, stores, via, drop_back=True)
-        chk.expect(w is None, "R-C16-1", "every path from the solver call at line %d to store_results_in_network tests the solver status" % fl.line(s), loc(rs, g.node_ast(s)),
-                   "a step whose (backup) solve failed must never be stored as if it had converged",
-                   expected="path passes a test decided by the status of this solve (`if solver_status == 0:`) after the last solve", found=g.path_text(w) if w else None)
-    bad_targets = set(stores) | set(saves) | set(appends)
-    chk.expect(len(trial_tests) == 1, "R-C16-1", "run_sim bounds the number of re-solve trials", loc(rs), found=[g.label(t) for t in trial_tests])
+    with chk.part("R-C16-1 failure exits"):
+        for s in solves:
+            via = [t for t, (o, nodes) in ftests.items() if s in nodes]
+            w = g.can_reach_avoiding(s, stores, via, drop_back=True)
+            chk.expect(w is None, "R-C16-1", "every path from the solver call at line %d to store_results_in_network tests the solver status" % fl.line(s), loc(rs, g.node_ast(s)),
+                       "a step whose (backup) solve failed must never be stored as if it had converged",
+                       expected="path passes a test decided by the status of this solve (`if solver_status == 0:`) after the last solve", found=g.path_text(w) if w else None)
+        bad_targets = set(stores) | set(saves) | set(appends)
+        chk.expect(len(trial_tests) == 1, "R-C16-1", "run_sim bounds the number of re-solve trials", loc(rs), found=[g.label(t) for t in trial_tests])
 
-    def is_res_attr(t, attr):
-        return dotted(t) == "%s.%s" % (res, attr)
-    errs = g.nodes_where(lambda node, d: isinstance(node, ast.Assign) and any(is_res_attr(t, "error_code") for t in node.targets))
+        def is_res_attr(t, attr):
+            return dotted(t) == "%s.%s" % (res, attr)
+        errs = g.nodes_where(lambda node, d: isinstance(node, ast.Assign) and any(is_res_attr(t, "error_code") for t in node.targets))
 
-    def err_value(n):
-        v = fl.resolve(g.node_ast(n).value, n)
-        if const(v, 1) is None:
-            return "None"
-        d = dotted(v) or ""
-        return "error" if d.split(".")[-2:] == ["ResultsStatus", "error"] else unparse(v)
-    err_set = [n for n in errs if err_value(n) == "error"]
-    err_none = [n for n in errs if err_value(n) == "None"]
-    err_other = [n for n in errs if n not in err_set and n not in err_none]
-    warns = fl.calling("warnings.warn")
-    fail_edges = [(t, o) for t, (o, _) in list(ftests.items()) + list(trial_tests.items())]
+        def err_value(n):
+            v = fl.resolve(g.node_ast(n).value, n)
+            if const(v, 1) is None:
+                return "None"
+            d = dotted(v) or ""
+            return "error" if d.split(".")[-2:] == ["ResultsStatus", "error"] else unparse(v)
+        err_set = [n for n in errs if err_value(n) == "error"]
+        err_none = [n for n in errs if err_value(n) == "None"]
+        err_other = [n for n in errs if n not in err_set and n not in err_none]
+        warns = fl.calling("warnings.warn")
+        fail_edges = [(t, o) for t, (o, _) in list(ftests.items()) + list(trial_tests.items())]
 
-    def reach(G, src, dsts, avoid=(), drop_back=False):
-        """a path in G from src to one of dsts that passes no node of avoid (None if there is none)"""
-        if src in set(avoid) or src not in G:
+        def reach(G, src, dsts, avoid=(), drop_back=False):
+            """a path in G from src to one of dsts that passes no node of avoid (None if there is none)"""
+            if src in set(avoid) or src not in G:
+                return None
+            H = G.copy()
+            if drop_back:
+                H.remove_edges_from([(a, b) for a, b, d in G.edges(data=True) if d.get("back")])
+            H.remove_nodes_from(list(avoid))
+            for d in sorted(dsts):
+                if d in H and nx.has_path(H, src, d):
+                    return nx.shortest_path(H, src, d)
             return None
-        H = G.copy()
-        if drop_back:
-            H.remove_edges_from([(a, b) for a, b, d in G.edges(data=True) if d.get("back")])
-        H.remove_nodes_from(list(avoid))
-        for d in sorted(dsts):
-            if d in H and nx.has_path(H, src, d):
-                return nx.shortest_path(H, src, d)
-        return None
 
-    def failed_graph(t, o):
-        """the executions that left status test t on its failure edge and make no further solve attempt: a later test of the same
+        def failed_graph(t, o):
+            """the executions that left status test t on its failure edge and make no further solve attempt: a later test of the same
         status variable(s) (not re-assigned on the way) leaves on its failure edge too; a path into another _solver_helper call is a
         retry, whose outcome is judged by the tests that follow that call."""
-        G = fl.given(t, o, avoid=solves)
-        for t2, (o2, _) in ftests.items():
-            if t2 != t and fnames[t2] == fnames[t] and fl.stable(t, t2, fl.rtest(t2), avoid=solves):
-                G.remove_edges_from([(t2, b) for b in g.succ_on(t2, not o2)])
-        G.remove_nodes_from(solves)
-        return G
-    for t, (o, _) in sorted(ftests.items()) + sorted(trial_tests.items()):
-        kind = "solver failure" if t in ftests else "trial limit"
-        succ = g.succ_on(t, o)
-        if not succ:
-            chk.bad("R-C16-1", "%s branch exists" % kind, loc(rs, g.node_ast(t)))
-            continue
-        s0 = succ[0]
-        if t in ftests and s0 in solves:
-            chk.ok("R-C16-1", "a failed solve is followed by another solver attempt (line %d)" % fl.line(t), loc(rs, g.node_ast(t)))
-            continue
-        G = failed_graph(t, o) if t in ftests else fl.G
-        w = reach(G, s0, bad_targets, drop_back=True)
-        chk.expect(w is None, "R-C16-1", "%s branch never reaches store/save/append of the failed step" % kind, loc(rs, g.node_ast(t)),
-                   "the steps reported before the failure must be exactly those of the run so far", found=g.path_text(w) if w else None)
-        w = reach(G, s0, [g.exit], err_set, drop_back=True)
-        chk.expect(w is None and bool(err_set), "R-C16-1", "%s branch sets results.error_code = error on every non-raising exit" % kind, loc(rs, g.node_ast(t)),
-                   found=g.path_text(w) if w else None)
-        w = reach(G, s0, [g.exit], warns, drop_back=True)
-        chk.expect(w is None and bool(warns), "R-C16-1", "%s branch warns on every non-raising exit" % kind, loc(rs, g.node_ast(t)), found=g.path_text(w) if w else None)
-        # the loop must be left: the loop head is not reachable again from the branch
-        back = reach(G, s0, [head])
-        chk.expect(back is None, "R-C16-1", "%s branch leaves the time loop (the run stops there)" % kind, loc(rs, g.node_ast(t)), found=g.path_text(back) if back else None)
-        # raise only, and always, under convergence_error
-        Gd = G.copy()
-        Gd.remove_edges_from([(a, b) for a, b, d in G.edges(data=True) if d.get("back")])
-        region = (set(nx.descendants(Gd, s0)) | {s0}) if s0 in Gd else set()
-        raises = [n for n in region if isinstance(g.node_ast(n), ast.Raise)]
-        gc = Gd.copy()
-        for c, oc in conv_edges:
-            gc.remove_edges_from([(c, b) for b in g.succ_on(c, oc)])
-        for r in sorted(raises):
-            okr = not (r in gc and s0 in gc and nx.has_path(gc, s0, r))
-            chk.expect(okr, "R-C16-1", "%s: RuntimeError is raised iff convergence_error is set" % kind, loc(rs, g.node_ast(r)), found=g.label(r))
-        chk.expect(bool(raises), "R-C16-1", "%s: a RuntimeError is raised when convergence_error=True" % kind, loc(rs, g.node_ast(t)))
-        for c in sorted(c for c in conv if c in region):
-            for b in g.succ_on(c, conv[c]):
-                w = reach(G, b, [g.exit, head], raises)
-                chk.expect(w is None, "R-C16-1", "%s: with convergence_error set every path ends in the raise" % kind, loc(rs, g.node_ast(c)), found=g.path_text(w) if w else None)
-    idom = g.dominators()
-    chk.expect(len(err_none) == 1 and g.dominates(err_none[0], head, idom), "R-C16-1", "results.error_code is initialised to None before the time loop", loc(rs), found=[g.label(n) for n in err_none])
-    for n in err_set + err_other:
-        okd = n in err_set and fl.only_behind(n, fail_edges)
-        chk.expect(okd, "R-C16-1", "results.error_code is set to error only on a failure branch (line %d)" % fl.line(n), loc(rs, g.node_ast(n)), found=g.label(n))
-    chk.floor("R-C16-1", 15)
+            G = fl.given(t, o, avoid=solves)
+            for t2, (o2, _) in ftests.items():
+                if t2 != t and fnames[t2] == fnames[t] and fl.stable(t, t2, fl.rtest(t2), avoid=solves):
+                    G.remove_edges_from([(t2, b) for b in g.succ_on(t2, not o2)])
+            G.remove_nodes_from(solves)
+            return G
+        for t, (o, _) in sorted(ftests.items()) + sorted(trial_tests.items()):
+            kind = "solver failure" if t in ftests else "trial limit"
+            succ = g.succ_on(t, o)
+            if not succ:
+                chk.bad("R-C16-1", "%s branch exists" % kind, loc(rs, g.node_ast(t)))
+                continue
+            s0 = succ[0]
+            if t in ftests and s0 in solves:
+                chk.ok("R-C16-1", "a failed solve is followed by another solver attempt (line %d)" % fl.line(t), loc(rs, g.node_ast(t)))
+                continue
+            G = failed_graph(t, o) if t in ftests else fl.G
+            w = reach(G, s0, bad_targets, drop_back=True)
+            chk.expect(w is None, "R-C16-1", "%s branch never reaches store/save/append of the failed step" % kind, loc(rs, g.node_ast(t)),
+                       "the steps reported before the failure must be exactly those of the run so far", found=g.path_text(w) if w else None)
+            w = reach(G, s0, [g.exit], err_set, drop_back=True)
+            chk.expect(w is None and bool(err_set), "R-C16-1", "%s branch sets results.error_code = error on every non-raising exit" % kind, loc(rs, g.node_ast(t)),
+                       found=g.path_text(w) if w else None)
+            w = reach(G, s0, [g.exit], warns, drop_back=True)
+            chk.expect(w is None and bool(warns), "R-C16-1", "%s branch warns on every non-raising exit" % kind, loc(rs, g.node_ast(t)), found=g.path_text(w) if w else None)
+            # the loop must be left: the loop head is not reachable again from the branch
+            back = reach(G, s0, [head])
+            chk.expect(back is None, "R-C16-1", "%s branch leaves the time loop (the run stops there)" % kind, loc(rs, g.node_ast(t)), found=g.path_text(back) if back else None)
+            # raise only, and always, under convergence_error
+            Gd = G.copy()
+            Gd.remove_edges_from([(a, b) for a, b, d in G.edges(data=True) if d.get("back")])
+            region = (set(nx.descendants(Gd, s0)) | {s0}) if s0 in Gd else set()
+            raises = [n for n in region if isinstance(g.node_ast(n), ast.Raise)]
+            gc = Gd.copy()
+            for c, oc in conv_edges:
+                gc.remove_edges_from([(c, b) for b in g.succ_on(c, oc)])
+            for r in sorted(raises):
+                okr = not (r in gc and s0 in gc and nx.has_path(gc, s0, r))
+                chk.expect(okr, "R-C16-1", "%s: RuntimeError is raised iff convergence_error is set" % kind, loc(rs, g.node_ast(r)), found=g.label(r))
+            chk.expect(bool(raises), "R-C16-1", "%s: a RuntimeError is raised when convergence_error=True" % kind, loc(rs, g.node_ast(t)))
+            for c in sorted(c for c in conv if c in region):
+                for b in g.succ_on(c, conv[c]):
+                    w = reach(G, b, [g.exit, head], raises)
+                    chk.expect(w is None, "R-C16-1", "%s: with convergence_error set every path ends in the raise" % kind, loc(rs, g.node_ast(c)), found=g.path_text(w) if w else None)
+        idom = g.dominators()
+        chk.expect(len(err_none) == 1 and g.dominates(err_none[0], head, idom), "R-C16-1", "results.error_code is initialised to None before the time loop", loc(rs), found=[g.label(n) for n in err_none])
+        for n in err_set + err_other:
+            okd = n in err_set and fl.only_behind(n, fail_edges)
+            chk.expect(okd, "R-C16-1", "results.error_code is set to error only on a failure branch (line %d)" % fl.line(n), loc(rs, g.node_ast(n)), found=g.label(n))
+        chk.floor("R-C16-1", 15)
 
     # ---------------------------------------------------------------- R-C16-3 one row per time
-    # the clock: what is advanced by the hydraulic timestep inside the loop
-    def advance(node):
-        """(target text, added expression) of `x += e` / `x = x + e`"""
-        if isinstance(node, ast.AugAssign) and isinstance(node.op, ast.Add) and dotted(node.target):
-            return dotted(node.target), node.value
-        if isinstance(node, ast.Assign) and len(node.targets) == 1 and dotted(node.targets[0]) and isinstance(node.value, ast.BinOp) and isinstance(node.value.op, ast.Add):
-            tt = dotted(node.targets[0])
-            if dotted(node.value.left) == tt:
-                return tt, node.value.right
-            if dotted(node.value.right) == tt:
-                return tt, node.value.left
-        return None
-    steps = [n for n in g.nodes_where(lambda node, d: advance(node) is not None) if n in inloop and head in g.reachable(n)]
-    clocks = {advance(g.node_ast(n))[0] for n in steps if advance(g.node_ast(n))[0].split(".")[-1] == "sim_time"}
-    if len(clocks) != 1:
-        raise AnchorError("run_sim: the simulation clock (the <wn>.sim_time attribute advanced in the loop) was not found: %s" % sorted(clocks))
-    clock = clocks.pop()
-    adv = [n for n in steps if advance(g.node_ast(n))[0] == clock and dotted(fl.resolve(advance(g.node_ast(n))[1], n)) in hyd_attrs]
+    with chk.part("R-C16-3 one row per time"):
+        # the clock: what is advanced by the hydraulic timestep inside the loop
+        def advance(node):
+            """(target text, added expression) of `x += e` / `x = x + e`"""
+            if isinstance(node, ast.AugAssign) and isinstance(node.op, ast.Add) and dotted(node.target):
+                return dotted(node.target), node.value
+            if isinstance(node, ast.Assign) and len(node.targets) == 1 and dotted(node.targets[0]) and isinstance(node.value, ast.BinOp) and isinstance(node.value.op, ast.Add):
+                tt = dotted(node.targets[0])
+                if dotted(node.value.left) == tt:
+                    return tt, node.value.right
+                if dotted(node.value.right) == tt:
+                    return tt, node.value.left
+            return None
+        steps = [n for n in g.nodes_where(lambda node, d: advance(node) is not None) if n in inloop and head in g.reachable(n)]
+        clocks = {advance(g.node_ast(n))[0] for n in steps if advance(g.node_ast(n))[0].split(".")[-1] == "sim_time"}
+        if len(clocks) != 1:
+            raise AnchorError("run_sim: the simulation clock (the <wn>.sim_time attribute advanced in the loop) was not found: %s" % sorted(clocks))
+        clock = clocks.pop()
+        adv = [n for n in steps if advance(g.node_ast(n))[0] == clock and dotted(fl.resolve(advance(g.node_ast(n))[1], n)) in hyd_attrs]
 
-    upd = fl.calling("update_network_previous_values")
-    upd_in_loop = [u for u in upd if u in inloop and head in g.reachable(u)]
-    last_time = "%s.time[-1]" % res
+        upd = fl.calling("update_network_previous_values")
+        upd_in_loop = [u for u in upd if u in inloop and head in g.reachable(u)]
+        last_time = "%s.time[-1]" % res
 
-    def is_dup(l):
-        return l.kind == "eq" and l.sign and any(a == last_time for a, _ in l.sides())
-    dup_edges = fl.edges_implying(is_dup)
-    dup = sorted({t for t, _ in dup_edges})
-    for s in saves:
-        w = g.can_reach_avoiding(s, upd_in_loop + [head, g.exit], appends, drop_back=False)
-        chk.expect(w is None, "R-C16-3", "save_results at line %d is followed by results.time.append on every non-raising path" % fl.line(s), loc(rs, g.node_ast(s)),
-                   "node/link rows and the time index must grow together", found=g.path_text(w) if w else None)
-        w = g.can_reach_avoiding(s, appends, dup, drop_back=True)
-        chk.expect(w is None, "R-C16-3", "the duplicate-time test precedes the append after save_results at line %d" % fl.line(s), loc(rs, g.node_ast(s)), found=g.path_text(w) if w else None)
-        reach = g.reachable(s, g.view(drop_back=True))
-        na = [a for a in appends if a in reach]
-        # ... and no second append can follow the first within the iteration
-        twice = [a for a in na if any(b in g.reachable(a, g.view(drop_back=True)) - {a} for b in appends)]
-        chk.expect(len(na) >= 1 and not twice, "R-C16-3", "exactly one append is reachable from save_results at line %d within the iteration" % fl.line(s), loc(rs, g.node_ast(s)), found=[g.label(a) for a in na])
-    for a in appends:
-        w = g.can_reach_avoiding(head, [a], saves, drop_back=True)
-        chk.expect(w is None, "R-C16-3", "results.time.append at line %d is preceded by save_results in the same iteration" % fl.line(a), loc(rs, g.node_ast(a)), found=g.path_text(w) if w else None)
-        cs = [c for c in fl.own_calls(a) if fl.call_target(c, a) == res + ".time.append"]
-        arg = fl.rtext(cs[0].args[0], a) if cs and len(cs[0].args) == 1 else None
-        chk.expect(arg == "int(%s)" % clock, "R-C16-3", "the appended time is int(sim_time) (line %d)" % fl.line(a), loc(rs, g.node_ast(a)), expected="int(%s)" % clock, found=arg)
-    for t, o in dup_edges:
-        s0 = g.succ_on(t, o)
-        w = g.can_reach_avoiding(s0[0], appends + [g.exit], [], drop_back=True) if s0 else None
-        chk.expect(w is None, "R-C16-3", "a repeated time raises instead of appending (test at line %d)" % fl.line(t), loc(rs, g.node_ast(t)), found=g.path_text(w) if w else None)
+        def is_dup(l):
+            return l.kind == "eq" and l.sign and any(a == last_time for a, _ in l.sides())
+        dup_edges = fl.edges_implying(is_dup)
+        dup = sorted({t for t, _ in dup_edges})
+        for s in saves:
+            w = g.can_reach_avoiding(s, upd_in_loop + [head, g.exit], appends, drop_back=False)
+            chk.expect(w is None, "R-C16-3", "save_results at line %d is followed by results.time.append on every non-raising path" % fl.line(s), loc(rs, g.node_ast(s)),
+                       "node/link rows and the time index must grow together", found=g.path_text(w) if w else None)
+            w = g.can_reach_avoiding(s, appends, dup, drop_back=True)
+            chk.expect(w is None, "R-C16-3", "the duplicate-time test precedes the append after save_results at line %d" % fl.line(s), loc(rs, g.node_ast(s)), found=g.path_text(w) if w else None)
+            reach = g.reachable(s, g.view(drop_back=True))
+            na = [a for a in appends if a in reach]
+            # ... and no second append can follow the first within the iteration
+            twice = [a for a in na if any(b in g.reachable(a, g.view(drop_back=True)) - {a} for b in appends)]
+            chk.expect(len(na) >= 1 and not twice, "R-C16-3", "exactly one append is reachable from save_results at line %d within the iteration" % fl.line(s), loc(rs, g.node_ast(s)), found=[g.label(a) for a in na])
+        for a in appends:
+            w = g.can_reach_avoiding(head, [a], saves, drop_back=True)
+            chk.expect(w is None, "R-C16-3", "results.time.append at line %d is preceded by save_results in the same iteration" % fl.line(a), loc(rs, g.node_ast(a)), found=g.path_text(w) if w else None)
+            cs = [c for c in fl.own_calls(a) if fl.call_target(c, a) == res + ".time.append"]
+            arg = fl.rtext(cs[0].args[0], a) if cs and len(cs[0].args) == 1 else None
+            chk.expect(arg == "int(%s)" % clock, "R-C16-3", "the appended time is int(sim_time) (line %d)" % fl.line(a), loc(rs, g.node_ast(a)), expected="int(%s)" % clock, found=arg)
+        for t, o in dup_edges:
+            s0 = g.succ_on(t, o)
+            w = g.can_reach_avoiding(s0[0], appends + [g.exit], [], drop_back=True) if s0 else None
+            chk.expect(w is None, "R-C16-3", "a repeated time raises instead of appending (test at line %d)" % fl.line(t), loc(rs, g.node_ast(t)), found=g.path_text(w) if w else None)
 
-    def is_grid(l):
-        if l.kind != "eq" or not l.sign:
+        def is_grid(l):
+            if l.kind != "eq" or not l.sign:
+                return False
+            for (a, xa), (b, xb) in (l.sides(), l.sides()[::-1]):
+                if b == "0" and isinstance(xa, ast.BinOp) and isinstance(xa.op, ast.Mod) and unparse(xa.left) in (clock, "float(%s)" % clock, "int(%s)" % clock) and dotted(xa.right) in rep_attrs:
+                    return True
             return False
-        for (a, xa), (b, xb) in (l.sides(), l.sides()[::-1]):
-            if b == "0" and isinstance(xa, ast.BinOp) and isinstance(xa.op, ast.Mod) and unparse(xa.left) in (clock, "float(%s)" % clock, "int(%s)" % clock) and dotted(xa.right) in rep_attrs:
-                return True
-        return False
-    # once the report timestep has been classified as a number, a save is reached (within the iteration) only where the grid condition holds
-    def is_numeric(l):
-        c = l.xa
-        if not (l.kind == "truth" and isinstance(c, ast.Call) and isinstance(c.func, ast.Name) and c.func.id == "isinstance" and len(c.args) == 2 and dotted(c.args[0]) in rep_attrs):
-            return False
-        types = {unparse(e) for e in (c.args[1].elts if isinstance(c.args[1], ast.Tuple) else [c.args[1]])}
-        return (types == {"str"} and not l.sign) or ("str" not in types and l.sign)
-    guarded = []
-    for t, o in fl.edges_implying(is_numeric):
-        for b in g.succ_on(t, o):
-            for s in saves:
-                if s in g.reachable(b, g.view(drop_back=True)):
-                    guarded.append(fl.behind(s, is_grid, src=b, drop_back=True))
-    chk.expect(bool(guarded) and all(guarded), "R-C16-3", "saving on the report grid is guarded by sim_time % report_timestep == 0", loc(rs),
-               found=[g.label(t) for t, _ in fl.edges_implying(is_grid)])
-    chk.floor("R-C16-3", 3 + 2 + 1 + 1)
+        # once the report timestep has been classified as a number, a save is reached (within the iteration) only where the grid condition holds
+        def is_numeric(l):
+            c = l.xa
+            if not (l.kind == "truth" and isinstance(c, ast.Call) and isinstance(c.func, ast.Name) and c.func.id == "isinstance" and len(c.args) == 2 and dotted(c.args[0]) in rep_attrs):
+                return False
+            types = {unparse(e) for e in (c.args[1].elts if isinstance(c.args[1], ast.Tuple) else [c.args[1]])}
+            return (types == {"str"} and not l.sign) or ("str" not in types and l.sign)
+        guarded = []
+        for t, o in fl.edges_implying(is_numeric):
+            for b in g.succ_on(t, o):
+                for s in saves:
+                    if s in g.reachable(b, g.view(drop_back=True)):
+                        guarded.append(fl.behind(s, is_grid, src=b, drop_back=True))
+        chk.expect(bool(guarded) and all(guarded), "R-C16-3", "saving on the report grid is guarded by sim_time % report_timestep == 0", loc(rs),
+                   found=[g.label(t) for t, _ in fl.edges_implying(is_grid)])
+        chk.floor("R-C16-3", 3 + 2 + 1 + 1)
 
     # ---------------------------------------------------------------- R-C16-5 progress
-    def is_over(l):
-        return l.kind == "gt" and l.sign and l.a == clock and l.b.endswith("options.time.duration")
-    dur_edges = fl.edges_implying(is_over)
-    chk.expect(len(adv) == 1, "R-C16-5", "the accepted path advances sim_time by the hydraulic timestep", loc(rs), found=[g.label(a) for a in adv])
-    if adv and dur_edges:
-        dur = sorted({t for t, _ in dur_edges})
-        for u in sorted(set(upd_in_loop) | set(saves)):
-            w = g.can_reach_avoiding(u, [head], adv, drop_back=False)
-            chk.expect(w is None, "R-C16-5", "no iteration that saved results returns to the loop head without advancing time", loc(rs, g.node_ast(u)), found=g.path_text(w) if w else None)
-        w = g.can_reach_avoiding(adv[0], [head], dur, drop_back=False)
-        chk.expect(w is None, "R-C16-5", "the duration test follows the time advance on every path back to the loop head", loc(rs), found=g.path_text(w) if w else None)
-        for t, o in dur_edges:
-            b = g.succ_on(t, o)
-            w = g.can_reach_avoiding(b[0], [head], [], drop_back=False) if b else [t]
-            chk.expect(w is None, "R-C16-5", "the loop ends when sim_time exceeds the duration", loc(rs, g.node_ast(t)), found=g.path_text(w) if w else None)
-    elif not dur_edges:
-        chk.bad("R-C16-5", "the loop ends when sim_time exceeds the duration", loc(rs), found="no test `%s > ...options.time.duration` after the advance" % clock)
-    conts = g.nodes_where(lambda node, d: isinstance(node, ast.Continue))
-    for c in conts:
-        chk.expect(any(g.dominates(t, c, idom) for t in tinc) and any(g.dominates(t, c, idom) for t in trial_tests), "R-C16-5",
-                   "the re-solve `continue` at line %d is dominated by `trial += 1` and the trial-limit test" % fl.line(c), loc(rs, g.node_ast(c)))
-    # options.time.hydraulic_timestep is forced to an integer >= 1: evaluate TimeOptions.__setattr__ symbolically for that name
-    to = repo.func(OPT, "TimeOptions.__setattr__")
-    chk.fn(to)
-    chk.expect(_timestep_at_least_one(to), "R-C16-5", "options.time.hydraulic_timestep is forced to an integer >= 1", loc(to))
-    chk.floor("R-C16-5", 6)
+    with chk.part("R-C16-5 progress"):
+        def is_over(l):
+            return l.kind == "gt" and l.sign and l.a == clock and l.b.endswith("options.time.duration")
+        dur_edges = fl.edges_implying(is_over)
+        chk.expect(len(adv) == 1, "R-C16-5", "the accepted path advances sim_time by the hydraulic timestep", loc(rs), found=[g.label(a) for a in adv])
+        if adv and dur_edges:
+            dur = sorted({t for t, _ in dur_edges})
+            for u in sorted(set(upd_in_loop) | set(saves)):
+                w = g.can_reach_avoiding(u, [head], adv, drop_back=False)
+                chk.expect(w is None, "R-C16-5", "no iteration that saved results returns to the loop head without advancing time", loc(rs, g.node_ast(u)), found=g.path_text(w) if w else None)
+            w = g.can_reach_avoiding(adv[0], [head], dur, drop_back=False)
+            chk.expect(w is None, "R-C16-5", "the duration test follows the time advance on every path back to the loop head", loc(rs), found=g.path_text(w) if w else None)
+            for t, o in dur_edges:
+                b = g.succ_on(t, o)
+                w = g.can_reach_avoiding(b[0], [head], [], drop_back=False) if b else [t]
+                chk.expect(w is None, "R-C16-5", "the loop ends when sim_time exceeds the duration", loc(rs, g.node_ast(t)), found=g.path_text(w) if w else None)
+        elif not dur_edges:
+            chk.bad("R-C16-5", "the loop ends when sim_time exceeds the duration", loc(rs), found="no test `%s > ...options.time.duration` after the advance" % clock)
+        conts = g.nodes_where(lambda node, d: isinstance(node, ast.Continue))
+        for c in conts:
+            chk.expect(any(g.dominates(t, c, idom) for t in tinc) and any(g.dominates(t, c, idom) for t in trial_tests), "R-C16-5",
+                       "the re-solve `continue` at line %d is dominated by `trial += 1` and the trial-limit test" % fl.line(c), loc(rs, g.node_ast(c)))
+        # options.time.hydraulic_timestep is forced to an integer >= 1: evaluate TimeOptions.__setattr__ symbolically for that name
+        to = repo.func(OPT, "TimeOptions.__setattr__")
+        chk.fn(to)
+        chk.expect(_timestep_at_least_one(to), "R-C16-5", "options.time.hydraulic_timestep is forced to an integer >= 1", loc(to))
+        chk.floor("R-C16-5", 6)
 
     # ---------------------------------------------------------------- R-C16-2 solver status discipline
-    sv = repo.func(SOLV, "NewtonSolver.solve")
-    chk.fn(sv)
-    fs = Flow(sv)
-    gs = fs.g
-    preds = list(gs.g.predecessors(gs.exit))
-    chk.expect(all(isinstance(gs.node_ast(p), ast.Return) for p in preds), "R-C16-2", "NewtonSolver.solve cannot fall off its end without returning a status", loc(sv),
-               found=[gs.label(p) for p in preds if not isinstance(gs.node_ast(p), ast.Return)])
+    with chk.part("R-C16-2 solver status discipline"):
+        sv = repo.func(SOLV, "NewtonSolver.solve")
+        chk.fn(sv)
+        fs = Flow(sv)
+        gs = fs.g
+        preds = list(gs.g.predecessors(gs.exit))
+        chk.expect(all(isinstance(gs.node_ast(p), ast.Return) for p in preds), "R-C16-2", "NewtonSolver.solve cannot fall off its end without returning a status", loc(sv),
+                   found=[gs.label(p) for p in preds if not isinstance(gs.node_ast(p), ast.Return)])
 
-    def is_tol(l, t):
-        # residual norm below the tolerance attribute:  self.tol > <max-abs / norm of the residual>
-        if not (l.kind == "gt" and l.sign and re.match(r"^self\.\w*tol\w*$", l.a)):
-            return False
-        # (a flag-guarded variable looks possibly unbound to a path-insensitive analysis; a None sentinel cannot pass `<`: TypeError)
-        os_ = [lf for lf in fs.origins(l.xb, t) if lf.kind != "unbound" and not (lf.kind == "expr" and isinstance(lf.ast, ast.Constant) and lf.ast.value is None)]
-        return bool(os_) and all(lf.kind == "expr" and re.search(r"\b(abs|norm)\(", lf.text()) for lf in os_)
+        def is_tol(l, t):
+            # residual norm below the tolerance attribute:  self.tol > <max-abs / norm of the residual>
+            if not (l.kind == "gt" and l.sign and re.match(r"^self\.\w*tol\w*$", l.a)):
+                return False
+            # (a flag-guarded variable looks possibly unbound to a path-insensitive analysis; a None sentinel cannot pass `<`: TypeError)
+            os_ = [lf for lf in fs.origins(l.xb, t) if lf.kind != "unbound" and not (lf.kind == "expr" and isinstance(lf.ast, ast.Constant) and lf.ast.value is None)]
+            return bool(os_) and all(lf.kind == "expr" and re.search(r"\b(abs|norm)\(", lf.text()) for lf in os_)
 
-    def is_empty(l):
-        if l.kind == "eq" and l.sign:
-            return any(a == "0" and re.match(r"^len\(.*\)$", b) for (a, _), (b, _) in (l.sides(), l.sides()[::-1]))
-        return l.kind == "truth" and not l.sign and re.match(r"^len\(.*\)$", l.a) is not None
-    tol_edges = []
-    for t in fs.tests():
-        for o in (True, False):
-            for l in fs.implied(t, o):
-                if is_tol(l, t) or is_empty(l):
-                    tol_edges.append((t, o))
-    kinds = {}
-    for r, leaves in returned_values(fs):
-        ok3 = bool(leaves)
-        conv_nodes = []
-        for lf in leaves:
+        def is_empty(l):
+            if l.kind == "eq" and l.sign:
+                return any(a == "0" and re.match(r"^len\(.*\)$", b) for (a, _), (b, _) in (l.sides(), l.sides()[::-1]))
+            return l.kind == "truth" and not l.sign and re.match(r"^len\(.*\)$", l.a) is not None
+        tol_edges = []
+        for t in fs.tests():
+            for o in (True, False):
+                for l in fs.implied(t, o):
+                    if is_tol(l, t) or is_empty(l):
+                        tol_edges.append((t, o))
+        kinds = {}
+        for r, leaves in returned_values(fs):
+            ok3 = bool(leaves)
+            conv_nodes = []
+            for lf in leaves:
+                v = lf.ast
+                if not (lf.kind == "expr" and isinstance(v, ast.Tuple) and len(v.elts) == 3):
+                    ok3 = False
+                    continue
+                sts = _status_of(fs, v, lf.node)
+                if not sts <= {"converged", "error"}:
+                    ok3 = False
+                for st_ in sts:
+                    kinds.setdefault(st_, []).extend(str_consts(v.elts[1]) + [s_ for m in fs.origins(v.elts[1], lf.node) if m.kind == "expr" for s_ in str_consts(m.ast)])
+                if "converged" in sts:
+                    conv_nodes.extend(m.node for m in fs.origins(v.elts[0], lf.node) if m.kind == "expr" and (dotted(m.ast) or "").endswith("SolverStatus.converged"))
+            chk.expect(ok3, "R-C16-2", "solve returns a (SolverStatus, message, iterations) triple at line %d" % fs.line(r), loc(sv, gs.node_ast(r)), found=[lf.text()[:80] for lf in leaves])
+            if conv_nodes:
+                okc = all(fs.only_behind(n, tol_edges) or fs.behind(n, lambda l: is_empty(l) or any(is_tol(l, t_) for t_ in fs.tests())) for n in conv_nodes)
+                chk.expect(okc, "R-C16-2", "`converged` is returned only under the tolerance test (line %d)" % fs.line(r), loc(sv, gs.node_ast(r)),
+                           "a failed solve must never be reported as converged")
+        errtxt = " ".join(kinds.get("error", []))
+        for what in ("Time limit", "singular", "Line search failed", "maximum number of iterations"):
+            chk.expect(what in errtxt, "R-C16-2", "solve reports `%s` with SolverStatus.error" % what, loc(sv), found=errtxt[:200])
+        loops = [n for n in walk(sv) if isinstance(n, (ast.For, ast.While))]
+        chk.expect(loops and all(isinstance(l, ast.For) and isinstance(l.iter, ast.Call) and call_name(l.iter) == "range" for l in loops), "R-C16-2",
+                   "both Newton loops are range-bounded (maxiter, bt_maxiter)", loc(sv), found=[unparse(l).split("\n")[0] for l in loops])
+        # leaving the outer loop by exhaustion leads to error returns only
+        outer = [h for l, h in gs.loop_heads.items() if not any(isinstance(p, (ast.For, ast.While)) for p in _ancestors(l, fs.fn))]
+        after = [b for h in outer for b in gs.succ_on(h, False)]
+        exh = returned_values(fs, start=after) if after else []
+        ok_exh = bool(exh)
+        for r, leaves in exh:
+            for lf in leaves:
+                if not (lf.kind == "expr" and isinstance(lf.ast, ast.Tuple) and len(lf.ast.elts) == 3 and _status_of(fs, lf.ast, lf.node) == {"error"}):
+                    ok_exh = False
+        chk.expect(ok_exh, "R-C16-2", "exhausting maxiter returns SolverStatus.error", loc(sv, gs.node_ast(exh[0][0]) if exh else None))
+
+        sh = repo.func(CORE, "_solver_helper")
+        chk.fn(sh)
+        fh = Flow(sh)
+        gh = fh.g
+        hrets = returned_values(fh)
+        hpreds = list(gh.g.predecessors(gh.exit))
+        unb = [lf for r, leaves in hrets for lf in leaves if lf.kind == "unbound"]
+        chk.expect(bool(hrets) and all(isinstance(gh.node_ast(p), ast.Return) and gh.node_ast(p).value is not None for p in hpreds) and not unb, "R-C16-2",
+                   "_solver_helper assigns a status on every returning path", loc(sh), found=[gh.label(p) for p in hpreds if not isinstance(gh.node_ast(p), ast.Return)] + [lf.text() for lf in unb])
+
+        def leaf_status(f, lf, rmap=None):
+            """set of statuses of one returned leaf: subset of {'error','converged'}, {'newton'} for the Newton solver's own triple, {'?'} otherwise"""
             v = lf.ast
-            if not (lf.kind == "expr" and isinstance(v, ast.Tuple) and len(v.elts) == 3):
-                ok3 = False
-                continue
-            sts = _status_of(fs, v, lf.node)
-            if not sts <= {"converged", "error"}:
-                ok3 = False
-            for st_ in sts:
-                kinds.setdefault(st_, []).extend(str_consts(v.elts[1]) + [s_ for m in fs.origins(v.elts[1], lf.node) if m.kind == "expr" for s_ in str_consts(m.ast)])
-            if "converged" in sts:
-                conv_nodes.extend(m.node for m in fs.origins(v.elts[0], lf.node) if m.kind == "expr" and (dotted(m.ast) or "").endswith("SolverStatus.converged"))
-        chk.expect(ok3, "R-C16-2", "solve returns a (SolverStatus, message, iterations) triple at line %d" % fs.line(r), loc(sv, gs.node_ast(r)), found=[lf.text()[:80] for lf in leaves])
-        if conv_nodes:
-            okc = all(fs.only_behind(n, tol_edges) or fs.behind(n, lambda l: is_empty(l) or any(is_tol(l, t_) for t_ in fs.tests())) for n in conv_nodes)
-            chk.expect(okc, "R-C16-2", "`converged` is returned only under the tolerance test (line %d)" % fs.line(r), loc(sv, gs.node_ast(r)),
-                       "a failed solve must never be reported as converged")
-    errtxt = " ".join(kinds.get("error", []))
-    for what in ("Time limit", "singular", "Line search failed", "maximum number of iterations"):
-        chk.expect(what in errtxt, "R-C16-2", "solve reports `%s` with SolverStatus.error" % what, loc(sv), found=errtxt[:200])
-    loops = [n for n in walk(sv) if isinstance(n, (ast.For, ast.While))]
-    chk.expect(loops and all(isinstance(l, ast.For) and isinstance(l.iter, ast.Call) and call_name(l.iter) == "range" for l in loops), "R-C16-2",
-               "both Newton loops are range-bounded (maxiter, bt_maxiter)", loc(sv), found=[unparse(l).split("\n")[0] for l in loops])
-    # leaving the outer loop by exhaustion leads to error returns only
-    outer = [h for l, h in gs.loop_heads.items() if not any(isinstance(p, (ast.For, ast.While)) for p in _ancestors(l, fs.fn))]
-    after = [b for h in outer for b in gs.succ_on(h, False)]
-    exh = returned_values(fs, start=after) if after else []
-    ok_exh = bool(exh)
-    for r, leaves in exh:
-        for lf in leaves:
-            if not (lf.kind == "expr" and isinstance(lf.ast, ast.Tuple) and len(lf.ast.elts) == 3 and _status_of(fs, lf.ast, lf.node) == {"error"}):
-                ok_exh = False
-    chk.expect(ok_exh, "R-C16-2", "exhausting maxiter returns SolverStatus.error", loc(sv, gs.node_ast(exh[0][0]) if exh else None))
-
-    sh = repo.func(CORE, "_solver_helper")
-    chk.fn(sh)
-    fh = Flow(sh)
-    gh = fh.g
-    hrets = returned_values(fh)
-    hpreds = list(gh.g.predecessors(gh.exit))
-    unb = [lf for r, leaves in hrets for lf in leaves if lf.kind == "unbound"]
-    chk.expect(bool(hrets) and all(isinstance(gh.node_ast(p), ast.Return) and gh.node_ast(p).value is not None for p in hpreds) and not unb, "R-C16-2",
-               "_solver_helper assigns a status on every returning path", loc(sh), found=[gh.label(p) for p in hpreds if not isinstance(gh.node_ast(p), ast.Return)] + [lf.text() for lf in unb])
-
-    def leaf_status(f, lf, rmap=None):
-        """set of statuses of one returned leaf: subset of {'error','converged'}, {'newton'} for the Newton solver's own triple, {'?'} otherwise"""
-        v = lf.ast
-        if lf.kind != "expr":
+            if lf.kind != "expr":
+                return {"?"}
+            if isinstance(v, ast.Tuple) and len(v.elts) == 3:
+                return _status_of(f, v, lf.node, rmap)
+            if isinstance(v, ast.Call) and last_attr(v) == "solve":
+                return {"newton"}
             return {"?"}
-        if isinstance(v, ast.Tuple) and len(v.elts) == 3:
-            return _status_of(f, v, lf.node, rmap)
-        if isinstance(v, ast.Call) and last_attr(v) == "solve":
-            return {"newton"}
-        return {"?"}
-    seen_leaf = set()
-    none_count = False
-    for r, leaves in hrets:
-        for lf in leaves:
-            if lf.kind == "unbound" or (lf.node, lf.text()) in seen_leaf:
-                continue
-            seen_leaf.add((lf.node, lf.text()))
-            sts = leaf_status(fh, lf)
-            chk.expect(sts <= {"error", "converged", "newton"}, "R-C16-2", "_solver_helper status at line %d is a SolverStatus or the Newton solver's triple" % fh.line(lf.node), loc(sh, gh.node_ast(lf.node)), found=lf.text()[:60])
-            if lf.kind == "expr" and isinstance(lf.ast, ast.Tuple) and len(lf.ast.elts) == 3:
-                if any(m.kind == "expr" and isinstance(m.ast, ast.Constant) and m.ast.value is None for m in fh.origins(lf.ast.elts[2], lf.node)):
-                    none_count = True
-    # an exception caught inside the helper ends in an error status
-    for h in [i for i, d in sorted(gh.g.nodes(data=True)) if d["kind"] == "except"]:
-        rmap = fh.flow_from(h)
-        hr = returned_values(fh, start=[h], rmap=rmap)
-        sts = set()
-        for r, leaves in hr:
+        seen_leaf = set()
+        none_count = False
+        for r, leaves in hrets:
             for lf in leaves:
-                sts |= leaf_status(fh, lf, rmap)
-        reraises = [n for n in gh.reachable(h) if isinstance(gh.node_ast(n), ast.Raise)]
-        chk.expect(sts == {"error"} or (not sts and reraises), "R-C16-2", "an exception inside a scipy solver is reported as SolverStatus.error", loc(sh, gh.node_ast(h)), found=sorted(sts))
-    # fsolve: `converged` only behind ier == 1 (ier: element 2 of the 4-tuple fsolve returns with full_output)
-    def ier_lit(l, t):
-        if l.kind != "eq":
-            return False
-        for (a, xa), (b, xb) in (l.sides(), l.sides()[::-1]):
-            if a == "1" and xb is not None:
-                os_ = fh.origins(xb, t)
-                if os_ and all(m.kind == "expr" and isinstance(m.ast, ast.Subscript) and const(m.ast.slice) == 2 and isinstance(m.ast.value, ast.Call) for m in os_):
-                    return True
-        return False
-    four = gh.nodes_where(lambda node, d: isinstance(node, ast.Assign) and isinstance(node.value, ast.Call) and any(isinstance(t, ast.Tuple) and len(t.elts) == 4 for t in node.targets))
-    ok_edges, bad_edges, fnodes = [], [], set(four)
-    for t in fh.tests():
-        for o in (True, False):
-            for l in fh.implied(t, o):
-                if ier_lit(l, t):
-                    (ok_edges if l.sign else bad_edges).append((t, o))
-                    for (a, xa) in l.sides():
-                        if xa is not None and a != "1":
-                            fnodes.update(m.node for m in fh.origins(xa, t))
-    if not fnodes:
-        raise ExtractError("_solver_helper: the call that unpacks fsolve's (x, infodict, ier, mesg) was not found")
-    for f in sorted(fnodes):
-        rmap = fh.flow_from(f)
-        convs = []       # the nodes at which a `converged` that can be returned downstream of the fsolve call is produced
-        for r, leaves in returned_values(fh, start=[f], rmap=rmap):
-            for lf in leaves:
+                if lf.kind == "unbound" or (lf.node, lf.text()) in seen_leaf:
+                    continue
+                seen_leaf.add((lf.node, lf.text()))
+                sts = leaf_status(fh, lf)
+                chk.expect(sts <= {"error", "converged", "newton"}, "R-C16-2", "_solver_helper status at line %d is a SolverStatus or the Newton solver's triple" % fh.line(lf.node), loc(sh, gh.node_ast(lf.node)), found=lf.text()[:60])
                 if lf.kind == "expr" and isinstance(lf.ast, ast.Tuple) and len(lf.ast.elts) == 3:
-                    convs.extend(m.node for m in fh.origins(lf.ast.elts[0], lf.node, rmap) if m.kind == "expr" and (dotted(m.ast) or "").endswith("SolverStatus.converged"))
-        okf = bool(convs) and all(fh.only_behind(n, ok_edges, src=f) for n in convs)
-        chk.expect(okf, "R-C16-2", "fsolve's ier != 1 is mapped to SolverStatus.error", loc(sh, gh.node_ast(f)),
-                   "fsolve reports failure through ier in 2..5; `converged` may only be returned on the edge where ier == 1 holds", found=[gh.label(n) for n in convs])
-    for t, o in bad_edges:
-        gv = fh.given(t, o)
-        rmap = fh.flow_from_edge(t, o, gv)
-        sts = set()
-        for r, leaves in returned_values(fh, start=gh.succ_on(t, o), rmap=rmap, graph=gv):
-            for lf in leaves:
-                sts |= leaf_status(fh, lf, rmap)
-        chk.expect(sts == {"error"}, "R-C16-2", "fsolve's ier != 1 is mapped to SolverStatus.error (edge at line %d)" % fh.line(t), loc(sh, gh.node_ast(t)), found=sorted(sts))
-    chk.floor("R-C16-2", 15)
+                    if any(m.kind == "expr" and isinstance(m.ast, ast.Constant) and m.ast.value is None for m in fh.origins(lf.ast.elts[2], lf.node)):
+                        none_count = True
+        # an exception caught inside the helper ends in an error status
+        for h in [i for i, d in sorted(gh.g.nodes(data=True)) if d["kind"] == "except"]:
+            rmap = fh.flow_from(h)
+            hr = returned_values(fh, start=[h], rmap=rmap)
+            sts = set()
+            for r, leaves in hr:
+                for lf in leaves:
+                    sts |= leaf_status(fh, lf, rmap)
+            reraises = [n for n in gh.reachable(h) if isinstance(gh.node_ast(n), ast.Raise)]
+            chk.expect(sts == {"error"} or (not sts and reraises), "R-C16-2", "an exception inside a scipy solver is reported as SolverStatus.error", loc(sh, gh.node_ast(h)), found=sorted(sts))
+        # fsolve: `converged` only behind ier == 1 (ier: element 2 of the 4-tuple fsolve returns with full_output)
+        def ier_lit(l, t):
+            if l.kind != "eq":
+                return False
+            for (a, xa), (b, xb) in (l.sides(), l.sides()[::-1]):
+                if a == "1" and xb is not None:
+                    os_ = fh.origins(xb, t)
+                    if os_ and all(m.kind == "expr" and isinstance(m.ast, ast.Subscript) and const(m.ast.slice) == 2 and isinstance(m.ast.value, ast.Call) for m in os_):
+                        return True
+            return False
+        four = gh.nodes_where(lambda node, d: isinstance(node, ast.Assign) and isinstance(node.value, ast.Call) and any(isinstance(t, ast.Tuple) and len(t.elts) == 4 for t in node.targets))
+        ok_edges, bad_edges, fnodes = [], [], set(four)
+        for t in fh.tests():
+            for o in (True, False):
+                for l in fh.implied(t, o):
+                    if ier_lit(l, t):
+                        (ok_edges if l.sign else bad_edges).append((t, o))
+                        for (a, xa) in l.sides():
+                            if xa is not None and a != "1":
+                                fnodes.update(m.node for m in fh.origins(xa, t))
+        if not fnodes:
+            raise ExtractError("_solver_helper: the call that unpacks fsolve's (x, infodict, ier, mesg) was not found")
+        for f in sorted(fnodes):
+            rmap = fh.flow_from(f)
+            convs = []       # the nodes at which a `converged` that can be returned downstream of the fsolve call is produced
+            for r, leaves in returned_values(fh, start=[f], rmap=rmap):
+                for lf in leaves:
+                    if lf.kind == "expr" and isinstance(lf.ast, ast.Tuple) and len(lf.ast.elts) == 3:
+                        convs.extend(m.node for m in fh.origins(lf.ast.elts[0], lf.node, rmap) if m.kind == "expr" and (dotted(m.ast) or "").endswith("SolverStatus.converged"))
+            okf = bool(convs) and all(fh.only_behind(n, ok_edges, src=f) for n in convs)
+            chk.expect(okf, "R-C16-2", "fsolve's ier != 1 is mapped to SolverStatus.error", loc(sh, gh.node_ast(f)),
+                       "fsolve reports failure through ier in 2..5; `converged` may only be returned on the edge where ier == 1 holds", found=[gh.label(n) for n in convs])
+        for t, o in bad_edges:
+            gv = fh.given(t, o)
+            rmap = fh.flow_from_edge(t, o, gv)
+            sts = set()
+            for r, leaves in returned_values(fh, start=gh.succ_on(t, o), rmap=rmap, graph=gv):
+                for lf in leaves:
+                    sts |= leaf_status(fh, lf, rmap)
+            chk.expect(sts == {"error"}, "R-C16-2", "fsolve's ier != 1 is mapped to SolverStatus.error (edge at line %d)" % fh.line(t), loc(sh, gh.node_ast(t)), found=sorted(sts))
+        chk.floor("R-C16-2", 15)
 
-    results_table_rules(repo, chk)
+        results_table_rules(repo, chk)
 
     # ---------------------------------------------------------------- R-C16-6 a step that was solved is never lost to a crash in the bookkeeping
-    # (a) the solver helper may return None as iteration count (scipy solvers): run_sim must not hand it to a format spec
-    def is_count(e, at):
-        return isinstance(e, ast.Name) and triple_role(e, at)[0] == 2
-    n_fmt = 0
-    for i in sorted(fl.G.nodes):
-        for e in fl.own_exprs(i):
-            for x in walk(e):
-                hits = []      # (spec text, printable) for each bare use of the count in a formatting position
-                if isinstance(x, ast.Call) and isinstance(x.func, ast.Attribute) and x.func.attr == "format":
-                    fmts = [lf.ast.value for lf in fl.origins(x.func.value, i) if lf.kind == "expr" and isinstance(lf.ast, ast.Constant) and isinstance(lf.ast.value, str)]
-                    for k, a in enumerate(x.args):
-                        if is_count(a, i):
-                            for f in fmts:
-                                m = re.search(r"\{%d(?:![rsa])?:([^}]+)\}" % k, f)
-                                hits.append(m.group(1) if m else None)
-                            if not fmts:
-                                hits.append(None)
-                elif isinstance(x, ast.FormattedValue) and is_count(x.value, i):
-                    hits.append(unparse(x.format_spec) if x.format_spec is not None else None)
-                elif isinstance(x, ast.BinOp) and isinstance(x.op, ast.Mod) and isinstance(x.left, ast.Constant) and isinstance(x.left.value, str):
-                    argl = x.right.elts if isinstance(x.right, ast.Tuple) else [x.right]
-                    specs = re.findall(r"%(?:\([^)]*\))?[-#0 +]*\d*(?:\.\d+)?([a-zA-Z%])", x.left.value)
-                    specs = [s_ for s_ in specs if s_ != "%"]
-                    for k, a in enumerate(argl):
-                        if is_count(a, i):
-                            hits.append(specs[k] if k < len(specs) and specs[k] not in "sra" else None)
-                for spec in hits:
-                    n_fmt += 1
-                    chk.expect(not (none_count and spec), "R-C16-6", "run_sim does not apply a format spec to the iteration count, which is None for scipy solvers", loc(rs, x),
-                               "_solver_helper returns (status, message, None) for fsolve / newton_krylov / ...; '{:%s}'.format(None) raises TypeError, so a step rescued by a scipy "
-                               "(backup) solver crashes the run instead of being reported" % (spec or ""), expected="str(<count>)", found=norm(x))
-    if not n_fmt:
-        chk.ok("R-C16-6", "run_sim does not apply a format spec to the iteration count, which is None for scipy solvers", loc(rs), "the bare count is not formatted anywhere")
+    with chk.part("R-C16-6 a step that was solved is never lost to a crash in the bookkeeping"):
+        # (a) the solver helper may return None as iteration count (scipy solvers): run_sim must not hand it to a format spec
+        def is_count(e, at):
+            return isinstance(e, ast.Name) and triple_role(e, at)[0] == 2
+        n_fmt = 0
+        for i in sorted(fl.G.nodes):
+            for e in fl.own_exprs(i):
+                for x in walk(e):
+                    hits = []      # (spec text, printable) for each bare use of the count in a formatting position
+                    if isinstance(x, ast.Call) and isinstance(x.func, ast.Attribute) and x.func.attr == "format":
+                        fmts = [lf.ast.value for lf in fl.origins(x.func.value, i) if lf.kind == "expr" and isinstance(lf.ast, ast.Constant) and isinstance(lf.ast.value, str)]
+                        for k, a in enumerate(x.args):
+                            if is_count(a, i):
+                                for f in fmts:
+                                    m = re.search(r"\{%d(?:![rsa])?:([^}]+)\}" % k, f)
+                                    hits.append(m.group(1) if m else None)
+                                if not fmts:
+                                    hits.append(None)
+                    elif isinstance(x, ast.FormattedValue) and is_count(x.value, i):
+                        hits.append(unparse(x.format_spec) if x.format_spec is not None else None)
+                    elif isinstance(x, ast.BinOp) and isinstance(x.op, ast.Mod) and isinstance(x.left, ast.Constant) and isinstance(x.left.value, str):
+                        argl = x.right.elts if isinstance(x.right, ast.Tuple) else [x.right]
+                        specs = re.findall(r"%(?:\([^)]*\))?[-#0 +]*\d*(?:\.\d+)?([a-zA-Z%])", x.left.value)
+                        specs = [s_ for s_ in specs if s_ != "%"]
+                        for k, a in enumerate(argl):
+                            if is_count(a, i):
+                                hits.append(specs[k] if k < len(specs) and specs[k] not in "sra" else None)
+                    for spec in hits:
+                        n_fmt += 1
+                        chk.expect(not (none_count and spec), "R-C16-6", "run_sim does not apply a format spec to the iteration count, which is None for scipy solvers", loc(rs, x),
+                                   "_solver_helper returns (status, message, None) for fsolve / newton_krylov / ...; '{:%s}'.format(None) raises TypeError, so a step rescued by a scipy "
+                                   "(backup) solver crashes the run instead of being reported" % (spec or ""), expected="str(<count>)", found=norm(x))
+        if not n_fmt:
+            chk.ok("R-C16-6", "run_sim does not apply a format spec to the iteration count, which is None for scipy solvers", loc(rs), "the bare count is not formatted anywhere")
 
-    # (b) the report timestep is classified by one predicate in the set-up and in the loop
-    def classify(fn, f):
-        out = []
-        for i in sorted(f.G.nodes):
-            for c in f.own_calls(i):
-                if isinstance(c.func, ast.Name) and c.func.id == "isinstance" and len(c.args) == 2 and dotted(f.resolve(c.args[0], i)) in rep_attrs:
-                    t2 = f.resolve(c.args[1], i)
-                    out.append(tuple(sorted(unparse(e) for e in (t2.elts if isinstance(t2, ast.Tuple) else [t2]))))
-        return out
-    cs, cl = classify(so, fso), classify(rs, fl)
-    if not cs or not cl:
-        raise ExtractError("classification of report_timestep not found (setup %s, loop %s)" % (cs, cl))
-    chk.expect(set(cs) == set(cl), "R-C16-6", "report_timestep is classified (number vs 'ALL') by the same type test in _setup_sim_options and in the simulation loop", loc(rs),
-               "a value the set-up accepts as a number (e.g. numpy.int64) but the loop does not recognise falls into the string branch and raises AttributeError after the first step",
-               expected=sorted(set(cs)), found=sorted(set(cl)))
-    # (c) NewtonSolver.solve: a loop variable used after its loop is bound even when the loop does not run (MAXITER = 0)
-    n_lv = 0
-    for lp, h in sorted(gs.loop_heads.items(), key=lambda kv: kv[1]):
-        if not isinstance(lp, ast.For) or any(isinstance(p, (ast.For, ast.While)) for p in _ancestors(lp, fs.fn)):
-            continue
-        body = {id(x) for x in ast.walk(lp)}
-        for v in _target_names(lp.target):
-            for i in sorted(fs.G.nodes):
-                if i == h or i not in gs.reachable(h):
-                    continue
-                uses = [x for e in fs.own_exprs(i) for x in walk(e) if isinstance(x, ast.Name) and x.id == v and isinstance(x.ctx, ast.Load) and id(x) not in body]
-                if not uses:
-                    continue
-                n_lv += 1
-                unb_ = [dn for dn, val in fs.reaching(v, i) if val is _UNBOUND]
-                chk.expect(not unb_, "R-C16-6", "NewtonSolver.solve: `%s` is defined before its loop (it is used after the loop, which may not run at all)" % v, loc(sv, uses[0]),
-                           "with MAXITER = 0 the loop body never runs and the fall-through return raises UnboundLocalError instead of reporting the failure", found="used at line %d" % fs.line(i))
-    chk.floor("R-C16-6", 3)
+        # (b) the report timestep is classified by one predicate in the set-up and in the loop
+        def classify(fn, f):
+            out = []
+            for i in sorted(f.G.nodes):
+                for c in f.own_calls(i):
+                    if isinstance(c.func, ast.Name) and c.func.id == "isinstance" and len(c.args) == 2 and dotted(f.resolve(c.args[0], i)) in rep_attrs:
+                        t2 = f.resolve(c.args[1], i)
+                        out.append(tuple(sorted(unparse(e) for e in (t2.elts if isinstance(t2, ast.Tuple) else [t2]))))
+            return out
+        cs, cl = classify(so, fso), classify(rs, fl)
+        if not cs or not cl:
+            raise ExtractError("classification of report_timestep not found (setup %s, loop %s)" % (cs, cl))
+        chk.expect(set(cs) == set(cl), "R-C16-6", "report_timestep is classified (number vs 'ALL') by the same type test in _setup_sim_options and in the simulation loop", loc(rs),
+                   "a value the set-up accepts as a number (e.g. numpy.int64) but the loop does not recognise falls into the string branch and raises AttributeError after the first step",
+                   expected=sorted(set(cs)), found=sorted(set(cl)))
+        # (c) NewtonSolver.solve: a loop variable used after its loop is bound even when the loop does not run (MAXITER = 0)
+        n_lv = 0
+        for lp, h in sorted(gs.loop_heads.items(), key=lambda kv: kv[1]):
+            if not isinstance(lp, ast.For) or any(isinstance(p, (ast.For, ast.While)) for p in _ancestors(lp, fs.fn)):
+                continue
+            body = {id(x) for x in ast.walk(lp)}
+            for v in _target_names(lp.target):
+                for i in sorted(fs.G.nodes):
+                    if i == h or i not in gs.reachable(h):
+                        continue
+                    uses = [x for e in fs.own_exprs(i) for x in walk(e) if isinstance(x, ast.Name) and x.id == v and isinstance(x.ctx, ast.Load) and id(x) not in body]
+                    if not uses:
+                        continue
+                    n_lv += 1
+                    unb_ = [dn for dn, val in fs.reaching(v, i) if val is _UNBOUND]
+                    chk.expect(not unb_, "R-C16-6", "NewtonSolver.solve: `%s` is defined before its loop (it is used after the loop, which may not run at all)" % v, loc(sv, uses[0]),
+                               "with MAXITER = 0 the loop body never runs and the fall-through return raises UnboundLocalError instead of reporting the failure", found="used at line %d" % fs.line(i))
+        chk.floor("R-C16-6", 3)
 
 
 def _ancestors(n, stop):
